@@ -215,3 +215,24 @@ func ZZCloneInfoPersisted(fs *zzfs.FS, snap string, rev int64) bool {
 	tmp := Replica{dir: zzDir}
 	return tmp.initRevisionCounter() == nil && tmp.revisionCache == rev
 }
+
+// ZZSetCounter puts the open replica's revision counter at v (cache and file).
+func (s *Server) ZZSetCounter(v int64) bool {
+	m := s.r.mode
+	s.r.mode = types.RW
+	err := s.r.SetRevisionCounter(v)
+	s.r.mode = m
+	return err == nil
+}
+
+// ZZCounters: the revision counter the open replica reports and the one a reopen of the
+// directory would find.
+func (s *Server) ZZCounters() (int64, int64) {
+	tmp := Replica{dir: zzDir}
+	if tmp.initRevisionCounter() != nil {
+		return s.r.GetRevisionCounter(), -2
+	}
+	return s.r.GetRevisionCounter(), tmp.revisionCache
+}
+
+func (s *Server) ZZModeIs(m types.Mode) bool { return s.r != nil && s.r.mode == m }
